@@ -88,7 +88,13 @@ func verifC12Responses() {
 			otherErr++
 		}
 	}
+	// the root's own pipeline (planning and sending the requests) finishes at an arbitrary moment
+	// relative to the responses and reports success through Complete(nil), as query/search.go does
+	pipelineDoneBefore := verifChoose("rootPipelineCompletesBeforeResponse", n+1)
 	for i := 0; i < n; i++ {
+		if i == pipelineDoneBefore {
+			mc.Complete(nil)
+		}
 		closedBefore := false
 		select {
 		case <-mc.doneCh:
@@ -99,6 +105,9 @@ func verifC12Responses() {
 			verifAssert(!closedBefore || mc.err != nil, "completion does not fire before the last expected response unless an error was recorded")
 		}
 		mc.HandleResponse(verifMakeResp(rs[i]), nodes[i])
+	}
+	if pipelineDoneBefore == n {
+		mc.Complete(nil)
 	}
 	closed := false
 	select {
